@@ -439,3 +439,93 @@ Proof.
   unfold accepts. destruct (run (init cfg) tr) eqn:E; [|discriminate]. intros _.
   eapply discipline_run; [apply reach_init | exact E].
 Qed.
+
+(* ------------------------------------------------------------------ model-free discipline monitor *)
+
+(** [raw_discipline] looks only at the events of a trace - no program counters, no model state:
+    it tracks the mutex owner from the Lock / Unlock events and reports the first event that
+    contradicts the lock discipline.  It is therefore meaningful on ANY logged trace, also on one
+    the LTS rejects, and every accepted trace passes it ([accepted_raw_discipline]).
+      DvLockBusy        Lock while the mutex is owned
+      DvUnlockNotOwner  Unlock by a thread that does not own the mutex
+      DvAccessUnlocked  Access / Mutate by a thread that does not own the mutex        (I2)
+      DvHookLocked      HookCall by the thread that owns the mutex                      (I3)
+      DvExitLocked      Done of a thread that still owns the mutex: the lock is never released,
+                        the next Lock of anybody blocks for ever                        (I1) *)
+Inductive dviol := DvLockBusy | DvUnlockNotOwner | DvAccessUnlocked | DvHookLocked | DvExitLocked.
+
+Definition owns (o : option tid) (t : tid) : bool :=
+  match o with Some x => Nat.eqb x t | None => false end.
+
+Definition raw_check (o : option tid) (e : event) : option dviol :=
+  match e with
+  | Lock _ => match o with None => None | Some _ => Some DvLockBusy end
+  | Unlock t => if owns o t then None else Some DvUnlockNotOwner
+  | Access t _ | Mutate t _ _ => if owns o t then None else Some DvAccessUnlocked
+  | HookCall t => if owns o t then Some DvHookLocked else None
+  | Done t _ => if owns o t then Some DvExitLocked else None
+  | _ => None
+  end.
+
+Definition raw_next (o : option tid) (e : event) : option tid :=
+  match e with Lock t => Some t | Unlock _ => None | _ => o end.
+
+Fixpoint raw_discipline (o : option tid) (tr : list event) (n : nat) : option (nat * dviol) :=
+  match tr with
+  | [] => None
+  | e :: tl =>
+      match raw_check o e with
+      | Some v => Some (n, v)
+      | None => raw_discipline (raw_next o e) tl (S n)
+      end
+  end.
+
+Lemma owns_iff o t : owns o t = true <-> o = Some t.
+Proof.
+  unfold owns. destruct o as [x|]; [|split; discriminate].
+  destruct (Nat.eqb_spec x t); split; intros H; try congruence; try discriminate.
+Qed.
+
+Lemma step_owner s e s' : step_fn s e = Some s' -> owner s' = raw_next (owner s) e.
+Proof.
+  intros H. destruct e; cbn [step_fn] in H; unfold on_thread in H; break_step; reflexivity.
+Qed.
+
+Lemma done_unlocked cfg s t ok s' : reachable cfg s -> step_fn s (Done t ok) = Some s' -> owner s <> Some t.
+Proof.
+  intros Hr H Ho. apply (I1_reachable _ _ Hr) in Ho. cbn in H.
+  destruct (th s t) as [p|x| |] eqn:Et; try discriminate.
+  - destruct p; cbn in *; discriminate.
+  - unfold tx_local in H. destruct (t_pc x) eqn:Epc; cbn in Ho; rewrite Epc in Ho; cbn in Ho; discriminate.
+Qed.
+
+Lemma unlock_owner cfg s t s' : reachable cfg s -> step_fn s (Unlock t) = Some s' -> owner s = Some t.
+Proof.
+  intros Hr H. cbn in H. destruct (unlock_thread (th s t)) eqn:E; [|discriminate].
+  apply unlock_thread_locked in E. apply (I1_reachable _ _ Hr). tauto.
+Qed.
+
+Lemma raw_run cfg s tr s' n : reachable cfg s -> run s tr = Some s' -> raw_discipline (owner s) tr n = None.
+Proof.
+  revert s n. induction tr as [|e tl IH]; intros s n Hr H; cbn in *; auto.
+  destruct (step_fn s e) eqn:E; [|discriminate].
+  assert (Hc : raw_check (owner s) e = None).
+  { destruct e; cbn; auto.
+    - apply lock_only_when_free in E. destruct E as [-> _]. reflexivity.
+    - rewrite (unlock_owner _ _ _ _ Hr E). cbn. rewrite Nat.eqb_refl. reflexivity.
+    - destruct (I2_access_under_lock _ _ _ _ _ Hr E) as [-> _]. cbn. rewrite Nat.eqb_refl. reflexivity.
+    - destruct (owns (owner s) t) eqn:Eo; auto. apply owns_iff in Eo.
+      destruct (I3_hook_called_unlocked _ _ _ _ Hr E). contradiction.
+    - rewrite (I2_mutate_under_lock _ _ _ _ _ _ Hr E). cbn. rewrite Nat.eqb_refl. reflexivity.
+    - destruct (owns (owner s) t) eqn:Eo; auto. apply owns_iff in Eo.
+      exfalso. eapply done_unlocked; eauto. }
+  rewrite Hc. rewrite <- (step_owner _ _ _ E). eapply IH; [eapply reach_step; eauto | exact H].
+Qed.
+
+(** every accepted trace passes the model-free monitor: in particular no thread returns while it
+    owns the node lock *)
+Theorem accepted_raw_discipline cfg tr : accepts cfg tr = true -> raw_discipline None tr 0 = None.
+Proof.
+  unfold accepts. destruct (run (init cfg) tr) eqn:E; [|discriminate]. intros _.
+  apply (raw_run cfg (init cfg) tr s 0 (reach_init cfg) E).
+Qed.
